@@ -5,7 +5,7 @@
    Time is a Z (nanoseconds of the fake clock).  A server is a script: a list of
    behaviours, one per request that reaches it. *)
 From Coq Require Import QArith Qabs.
-From Oras Require Import Base.Prelude Generated.GC17.
+From Oras Require Import Base.Prelude Base.RetryTypes Generated.GC17.
 Open Scope Z_scope.
 
 (* ------------------------------------------------------------------ *)
@@ -25,7 +25,7 @@ Record beh := mkBeh {
   b_lat : Z                (* time the server takes to answer *)
 }.
 
-Inductive pred_result := PRetry | PStop | PFail.
+(* pred_result, bres, decision: Base/RetryTypes.v (shared with the generated functions) *)
 
 (* how the transport errors look to a predicate *)
 Definition err_flags (o : outcome) : option (bool * bool * bool) :=
@@ -60,8 +60,6 @@ Definition custom_predicate (tbl : list (Z * pred_result)) (dflt err : pred_resu
   | _ => err
   end.
 
-Inductive bres := BRet (d : Z) | BPanic.
-
 Record policy := mkPolicy {
   p_max_retry : Z;
   p_min : Z;
@@ -70,24 +68,14 @@ Record policy := mkPolicy {
   p_backoff : Z -> outcome -> bres
 }.
 
-Inductive decision := DStop | DFail | DWait (d : Z) | DPanic.
-
 Definition clamp (lo hi x : Z) : Z :=
   let x := if x <? lo then lo else x in
   if x >? hi then hi else x.
 
-(* GenericPolicy.Retry *)
+(* GenericPolicy.Retry: Generated.GC17.generated_retry is translated statement by statement
+   from policy.go (attempt bound, predicate, backoff, clamping steps, in source order) *)
 Definition generic_retry (p : policy) (attempt : Z) (o : outcome) : decision :=
-  if attempt >=? p_max_retry p then DStop
-  else match p_pred p o with
-       | PFail => DFail
-       | PStop => DStop
-       | PRetry =>
-         match p_backoff p attempt o with
-         | BPanic => DPanic
-         | BRet x => DWait (clamp (p_min p) (p_max p) x)
-         end
-       end.
+  generated_retry attempt (p_max_retry p) (p_min p) (p_max p) (p_pred p o) (p_backoff p attempt o).
 
 (* ------------------------------------------------------------------ *)
 (* ExponentialBackoff                                                   *)
